@@ -34,4 +34,8 @@ CONSTANT DEV_AnyLeftEmpty
 \* Props.__eq__ compares prop values with != which reaches schema-vs-value (C15)
 CONSTANT DEV_PropsEqSchemaVsValue
 
+\* RegexGenerator compares a repeat's upper bound with the MAX_REPEAT *opcode* (44 on
+\* CPython 3.12) as well as with the MAXREPEAT sentinel, so `x{m,44}` is treated as open-ended (C09)
+CONSTANT DEV_RegexOpcodeAsBound
+
 =============================================================================
